@@ -44,7 +44,7 @@ type c18Counters struct {
 	mu                                                          sync.Mutex
 	behaviours, steps, restores, restoresOK, restoresFailed     int
 	judged, notJudged, held, backups, raceWrites, cuts, reopens int
-	srcReopens                                                  int
+	srcReopens, snapFails, snapFailsProceeded                   int
 	classes                                                     map[string]int
 	sigs                                                        map[string]int
 	infra                                                       []string
@@ -69,8 +69,9 @@ type c18Run struct {
 	cut       string
 	tombShip  bool
 	inflight  bool
-	layoutOff bool // the real file layout differs from the model's (note): streams are not compared entry by entry
-	failed    bool // a mismatch was reported: the rest of the scenario is not judged
+	snapFail  string // the backup's cache snapshot was made to fail this way and the backup went on regardless
+	layoutOff bool   // the real file layout differs from the model's (note): streams are not compared entry by entry
+	failed    bool   // a mismatch was reported: the rest of the scenario is not judged
 	stopped   bool
 }
 
@@ -242,7 +243,7 @@ func (r *c18Run) step(i int) {
 		}
 		r.checkSource(i, true)
 	case "RequestCopy":
-		r.stream, r.cut, r.tombShip, r.inflight = nil, "none", false, false
+		r.stream, r.cut, r.tombShip, r.inflight, r.snapFail = nil, "none", false, false, ""
 		var prev *c18kit.State
 		if i > 0 {
 			prev = &r.b[i-1].St
@@ -287,6 +288,24 @@ func (r *c18Run) step(i int) {
 		}
 		r.c.add(func() { r.c.backups++ })
 		r.checkSource(i, !r.inflight)
+	case "BackupBeginFail":
+		// the backup's own cache snapshot fails (not: is in progress); the backup must fail as a whole or lose nothing
+		r.cut = "snapfail-" + s.X
+		heal, err := r.src.BreakSnapshot(c18Shard, s.X)
+		if err != nil {
+			r.infra(i, "%v", err)
+			return
+		}
+		var buf bytes.Buffer
+		berr := r.src.Store.BackupShard(c18Shard, time.Time{}, &buf)
+		heal()
+		r.c.add(func() { r.c.snapFails++ })
+		r.stream = buf.Bytes()
+		if berr == nil {
+			r.snapFail = s.X
+			r.c.add(func() { r.c.snapFailsProceeded++ })
+		}
+		r.checkSource(i, true)
 	case "BackupStream":
 		if r.cut == "backup-refused" || r.bkDone == nil {
 			return // no stream, or the real stream already ended (fewer entries than the model's)
@@ -402,6 +421,27 @@ func (r *c18Run) restore(i int) {
 	r.c.add(func() { r.c.restores++ })
 	tail := mode + ":" + r.cut
 	clean := st.Wire == "trailer"
+	if r.snapFail != "" {
+		// BackupShard returned nil although its cache snapshot failed: whatever it streamed is offered as a complete
+		// backup; a restore that accepts it must produce the source's content (cache included)
+		if err != nil {
+			r.c.add(func() { r.c.restoresFailed++; r.c.held++ })
+			return
+		}
+		r.c.add(func() { r.c.restoresOK++; r.c.judged++ })
+		if rerr != nil {
+			r.mismatch("restore:"+tail+":unreadable", rerr.Error(), i)
+			return
+		}
+		if in, near := c18kit.InWindow(after, st.Window); !in {
+			_, missing, stale := after.Diff(near)
+			r.mismatch("restore:"+tail+":cache-missing", fmt.Sprintf("the cache snapshot of the backup failed (%s) but BackupShard returned nil and streamed %d bytes; "+
+				"the restored copy reads %s, the source %s (missing in the copy: %v, other value: %v)", r.snapFail, len(r.stream), after, near, missing, stale), i)
+			return
+		}
+		r.c.add(func() { r.c.held++ })
+		return
+	}
 	if err != nil {
 		r.c.add(func() { r.c.restoresFailed++ })
 		if clean {
@@ -567,7 +607,7 @@ func TestVerifBackupReplay(t *testing.T) {
 	vtrace.Done("TestVerifBackupReplay", map[string]interface{}{
 		"behaviours": c.behaviours, "steps": c.steps, "backups": c.backups, "restores": c.restores, "restores_ok": c.restoresOK,
 		"restores_failed": c.restoresFailed, "judged": c.judged, "not_judged": c.notJudged, "held": c.held,
-		"race_writes": c.raceWrites, "cuts": c.cuts, "reopens": c.reopens, "source_reopens": c.srcReopens, "classes": c.classes, "signatures": c.sigs,
+		"race_writes": c.raceWrites, "cuts": c.cuts, "reopens": c.reopens, "source_reopens": c.srcReopens, "snapshot_faults": c.snapFails, "snapshot_faults_backup_went_on": c.snapFailsProceeded, "classes": c.classes, "signatures": c.sigs,
 	})
 	if len(c.sigs) > 0 {
 		t.Errorf("mismatches: %v", c.sigs)
